@@ -335,8 +335,11 @@ def c06_targets(ctx, prog):
             if key in seen:
                 continue
             seen.add(key)
-            sigc = const_of(prog, node["c"][2])
-            ok = pidv == fs(A.PID) and st.res.get(A.PID) in (("running",), ("gone",)) and sigc == SIG.get(fn.name, -999) \
+            # which signal: the value that reaches kill(), and which of the two library-level senders is on the call stack
+            sv = info[1]
+            sigc = next(iter(sv)) if sv is not None and len(sv) == 1 else None
+            want = [SIG[x] for x in stack if x in SIG]
+            ok = pidv == fs(A.PID) and st.res.get(A.PID) in (("running",), ("gone",)) and len(want) == 1 and sigc == want[0] \
                 and shape_of(st.mon.get("shape")) == "RUN"
             ctx.ob("C06.K1", "%s via %s" % (site_of(fn, node), f), "a signal is sent only to the positive pid of the handle's own "
                    "child, only while it is running and unreaped, and it is SIGTERM in terminate / SIGKILL in kill", ok,
@@ -366,13 +369,24 @@ def c06_targets(ctx, prog):
     # who may call
     allowed_kill = {"process_terminate", "process_kill"}
     allowed_wait = {"process_wait", "process_fork", "process_start"}
+    def only_from(fname, allowed, seen=None):
+        """the function is one of `allowed` or a helper whose every caller (transitively) is"""
+        seen = seen or set()
+        if fname in allowed:
+            return True
+        if fname in seen:
+            return False
+        seen.add(fname)
+        callers = {Fx.name for Fx in prog.funcs_all for c in Fx.calls(fname)}
+        return bool(callers) and all(only_from(c, allowed, seen) for c in callers)
     for name, allowed in (("kill", allowed_kill), ("waitpid", allowed_wait), ("waitid", allowed_wait)):
         for F, n in callsites(prog, name):
-            ctx.ob("C06.K0", site_of(F, n), "%s is called only from %s" % (name, sorted(allowed)), F.name in allowed, {"line": n["l"][0]})
+            ctx.ob("C06.K0", site_of(F, n), "%s is called only from %s (or a helper only they use)" % (name, sorted(allowed)),
+                   only_from(F.name, allowed), {"line": n["l"][0]})
     for name in ("killpg", "raise", "sigqueue", "pthread_kill", "tgkill", "wait", "wait3", "wait4"):
         for F, n in callsites(prog, name):
             ctx.ob("C06.K0", site_of(F, n), "no other signalling / reaping primitive is used", False, {"line": n["l"][0]})
-    ctx.floor("C06.K0", 5)
+    ctx.floor("C06.K0", 4)
 
 
 # --------------------------------------------------------------------------------- C05 (API part)
